@@ -14,7 +14,7 @@
         atomic (modelling assumption: rename(2) is atomic; partial writes inside one mutation are outside)
     - src/commons/eventsourcing/wal.rs 385-416    WAL store: wal-N set, snapshot, deletion of the sets
     - src/server/pubd/rrdp.rs 493-499, 637-685    deltas, snapshot, new notification file, rename, clean-up
-    - src/server/pubd/rsync.rs 72-156             tmp dir, files, current -> old, tmp -> current, remove old
+    - src/server/pubd/rsync.rs 72-175             tmp dir, files, (remove stale old,) current -> old, tmp -> current, remove old
 
     The event-sourced entity is the generic store of es/Es.v (C06); the task names are those of
     queue/Queue.v; the listener of the concrete instance is ca/Ca.v [listener]. No proofs in this file. *)
@@ -296,9 +296,20 @@ Definition rsync_apply (r : rsyncd) (m : rmut) : option rsyncd :=
   | RTmpToCur => match r_current r with Some _ => None | None => Some (mkRs None (r_tmp r) (r_old r)) end
   | RRemoveOld => Some (mkRs (r_tmp r) (r_current r) None)
   end.
+(** The switch as repaired (commit e1f99c61, rsync.rs:116-140): if [current] exists, a stale [old] - left by a
+    write that was interrupted after the switch - is removed before [current] is renamed onto it. *)
 Definition rsync_write_trace (r : rsyncd) (c : N) : list rmut :=
-  [RWriteTmp c] ++ (match r_current r with Some _ => [RCurToOld] | None => [] end) ++ [RTmpToCur]
+  [RWriteTmp c]
+  ++ (match r_current r with
+      | Some _ => (match r_old r with Some _ => [RRemoveOld] | None => [] end) ++ [RCurToOld]
+      | None => []
+      end)
+  ++ [RTmpToCur]
   ++ (match r_current r, r_old r with None, None => [] | _, _ => [RRemoveOld] end).   (* only if old exists then *)
+(** The originally pinned switch: no removal of a stale [old] (finding F11c). *)
+Definition rsync_write_trace_pinned (r : rsyncd) (c : N) : list rmut :=
+  [RWriteTmp c] ++ (match r_current r with Some _ => [RCurToOld] | None => [] end) ++ [RTmpToCur]
+  ++ (match r_current r, r_old r with None, None => [] | _, _ => [RRemoveOld] end).
 Fixpoint rsync_run (r : rsyncd) (l : list rmut) : option rsyncd :=
   match l with
   | [] => Some r
@@ -306,11 +317,13 @@ Fixpoint rsync_run (r : rsyncd) (l : list rmut) : option rsyncd :=
   end.
 
 (** * File-system traces of the RRDP update and the rsync write, by counts *)
-Definition rrdp_fs_trace (n_deltas n_removed : nat) : list shape :=
+Definition rrdp_fs_trace (n_deltas : nat) (cleanup : list bool) : list shape :=
   concat (repeat [ShFs FCreateFile CDelta; ShFs FWrite CDelta] n_deltas)
   ++ [ShFs FCreateFile CSnapshot; ShFs FWrite CSnapshot; ShFs FCreateFile CNotifNew; ShFs FWrite CNotifNew; ShFs FRename CNotif]
-  ++ repeat (ShFs FRemoveFile CRrdpOther) n_removed.
-Definition rsync_fs_trace (n_files : nat) (has_current : bool) : list shape :=
+  (* clean-up of what the new notification file no longer references: old snapshot files, whole old serial directories *)
+  ++ map (fun dir : bool => ShFs (if dir then FRemoveDir else FRemoveFile) CRrdpOther) cleanup.
+Definition rsync_fs_trace (n_files : nat) (has_current has_old : bool) : list shape :=
   [ShFs FCreateDir CRsyncTmp] ++ concat (repeat [ShFs FCreateFile CRsyncFile; ShFs FWrite CRsyncFile] n_files)
-  ++ (if has_current then [ShFs FRename CRsyncCurrent] else []) ++ [ShFs FRename CRsyncTmp]
-  ++ (if has_current then [ShFs FRemoveDir CRsyncOld] else []).
+  ++ (if has_current then (if has_old then [ShFs FRemoveDir CRsyncOld] else []) ++ [ShFs FRename CRsyncCurrent] else [])
+  ++ [ShFs FRename CRsyncTmp]
+  ++ (if has_current || has_old then [ShFs FRemoveDir CRsyncOld] else []).
